@@ -14,7 +14,7 @@ import (
 func init() {
 	register(&core.Rule{ID: "C16.5", Prop: "C16", MinSites: 1,
 		Desc: "every '%' is escaped before url.Parse: on all paths the string handed to url.Parse is strings.ReplaceAll(<the whole address>, \"%\", \"%25\") – a partial escape would let url.Parse decode or reject a unix path that contains '%'",
-		Run: runC16_5})
+		Run:  runC16_5})
 }
 
 func runC16_5(c *core.Ctx) {
@@ -116,7 +116,7 @@ func runC16_5(c *core.Ctx) {
 func init() {
 	register(&core.Rule{ID: "C16.6", Prop: "C16", MinSites: 4,
 		Desc: "verdicts sit on the edges that justify them: parseProtoAddr succeeds only where the endpoint is established non-empty (u.Host != \"\" and u.Path == \"\" for tcp/udp, the joined path != \"\" for unix) and returns ErrInvalidNetworkAddress only on an empty-scheme, empty-endpoint or stray-path edge",
-		Run: runC16_6})
+		Run:  runC16_6})
 }
 
 func runC16_6(c *core.Ctx) {
